@@ -15,6 +15,8 @@ type cfgT struct {
 	Idle   time.Duration
 	Abs    time.Duration
 	VStore bool
+	Retain bool   // with VStore: the retaining storage (refStore) instead of vstore
+	IDs    string // id alphabet of the KeyGenerator ("" = plain)
 	// Gran is the ambiguity window around an idle deadline: 0 for vstore (exact TTL), 1 s for the
 	// bundled memory storage (whole-second TTLs on a coarse clock: may end up to 1 s early).
 	Gran time.Duration
@@ -24,8 +26,15 @@ func (c cfgT) String() string {
 	st := "memory"
 	if c.VStore {
 		st = "vstore"
+		if c.Retain {
+			st = "retaining"
+		}
 	}
-	return fmt.Sprintf("source=%s:%s idle=%s abs=%s storage=%s", c.Source, c.Name, c.Idle, c.Abs, st)
+	ids := c.IDs
+	if ids == "" {
+		ids = "plain"
+	}
+	return fmt.Sprintf("source=%s:%s idle=%s abs=%s storage=%s ids=%s", c.Source, c.Name, c.Idle, c.Abs, st, ids)
 }
 
 // entry is store[id] of the specification.
